@@ -120,6 +120,13 @@ func newEngine(repo string) *Engine {
 
 func (e *Engine) noteGlobSort(k string, s Sort) { e.globSorts[k] = s }
 
+// noteElemSort records the sort of the element-array key of a slice element type.
+func (e *Engine) noteElemSort(et types.Type) {
+	if ls, ok := leafSort(et); ok && (ls == SInt || ls == SBool) && structOf(et) == nil {
+		e.globSorts[elemKey(et)] = arrOf(arrOf(ls))
+	}
+}
+
 // definedInPrelude reports whether the SMT prelude (built-ins and smt{} blocks of
 // the contract files) already declares or defines the function.
 func (e *Engine) definedInPrelude(name string) bool {
@@ -492,10 +499,14 @@ func (e *Engine) modScan(fn *ssa.Function, ms *modSet, seen map[*ssa.Function]bo
 			if _, ok := ft.Underlying().(*types.Slice); ok {
 				for _, p := range sliceParts {
 					ms.keys[k+p] = true
+					e.globSorts[k+p] = SArrII
 				}
 				return
 			}
 			ms.keys[k] = true
+			if ls, ok := leafSort(ft); ok {
+				e.globSorts[k] = arrOf(ls)
+			}
 		}
 		rec(st, fi)
 	}
@@ -515,6 +526,7 @@ func (e *Engine) modScan(fn *ssa.Function, ms *modSet, seen map[*ssa.Function]bo
 							}
 						} else {
 							ms.keys[elemKey(et)] = true
+							e.noteElemSort(et)
 						}
 					}
 				case *ssa.Global:
@@ -568,6 +580,7 @@ func (e *Engine) modScan(fn *ssa.Function, ms *modSet, seen map[*ssa.Function]bo
 									}
 								} else {
 									ms.keys[elemKey(et)] = true
+							e.noteElemSort(et)
 								}
 							}
 						}
@@ -607,6 +620,7 @@ func (e *Engine) modScan(fn *ssa.Function, ms *modSet, seen map[*ssa.Function]bo
 							et := types.Unalias(sl.Elem())
 							if structOf(et) == nil {
 								ms.keys[elemKey(et)] = true
+							e.noteElemSort(et)
 							}
 						}
 					}
@@ -653,6 +667,9 @@ func (e *Engine) modFromContract(ct *Contract, ms *modSet) {
 				}
 				if c.Fn == "elems" {
 					ms.keys["$elems"] = true
+				}
+				if lit, ok := c.Args[0].(*EStr); ok && c.Fn == "key" {
+					ms.keys[lit.V] = true
 				}
 			}
 			if name != "" {
